@@ -87,6 +87,8 @@ func main() {
 		pool["readhdr"] = append(pool["readhdr"], b1.Addr)
 		b2, _ := e2e.NewBackend(e2e.Stall(3 * time.Second))
 		pool["timeout"] = append(pool["timeout"], b2.Addr)
+		b4, _ := e2e.NewBackend(e2e.ReadThenReset)
+		pool["rst"] = append(pool["rst"], b4.Addr)
 		b3, _ := e2e.NewBackend(e2e.Respond(e2e.OK("hello"), true))
 		pool["ok"] = append(pool["ok"], b3.Addr)
 	}
